@@ -28,6 +28,7 @@ Record case := {
   c_env : env;                         (* the caller's environment *)
   c_layout : layout;
   c_nargs : nat;
+  c_default : bool;                    (* the magefile declares a default target *)
   c_durs : list (string * option Z);   (* time.ParseDuration *)
   c_durstr : list (Z * string);        (* time.Duration.String *)
   c_bools : list (string * option bool);   (* strconv.ParseBool, to pin the transcription parse_bool *)
@@ -52,16 +53,17 @@ Definition model_obs (c : case) : obs :=
       let '(inv, cenv, dir) := front_end dur_string jn true (c_layout c) (c_flags c) (c_env c) in
       let args := gm_parse parse_dur no_cflags cenv in
       let tenv := gm_target_env args cenv in
-      {| o_mode := gm_mode args (c_nargs c); o_verbose_log := a_verbose args;
+      {| o_mode := gm_mode args (c_nargs c) (c_default c) cenv; o_verbose_log := a_verbose args;
          o_verbose := mg_verbose tenv; o_debug := mg_debug tenv; o_gocmd := mg_gocmd tenv;
          o_timeout := a_timeout args; o_cwd := resolve dir; o_build := resolve (i_dir inv);
          o_env := map (fun k => (k, lookup k tenv)) (c_keys c);
-         o_stdin := Some (w_stdin run_compiled_wiring); o_stdout := Some (w_stdout run_compiled_wiring);
-         o_stderr := Some (w_stderr run_compiled_wiring) |}
+         o_stdin := Some (w_stdin (run_compiled_wiring inv (c_nargs c)));
+         o_stdout := Some (w_stdout (run_compiled_wiring inv (c_nargs c)));
+         o_stderr := Some (w_stderr (run_compiled_wiring inv (c_nargs c))) |}
   | ViaBinary =>
       let args := gm_parse parse_dur (c_cflags c) (c_env c) in
       let tenv := gm_target_env args (c_env c) in
-      {| o_mode := gm_mode args (c_nargs c); o_verbose_log := a_verbose args;
+      {| o_mode := gm_mode args (c_nargs c) (c_default c) (c_env c); o_verbose_log := a_verbose args;
          o_verbose := mg_verbose tenv; o_debug := mg_debug tenv; o_gocmd := mg_gocmd tenv;
          o_timeout := a_timeout args; o_cwd := ""; o_build := "";
          o_env := map (fun k => (k, lookup k tenv)) (c_keys c);
@@ -70,7 +72,7 @@ Definition model_obs (c : case) : obs :=
 
 Definition mode_eqb (a b : mode) : bool :=
   match a, b with
-  | MUsage, MUsage | MList, MList | MHelp, MHelp | MRun, MRun | MNoWords, MNoWords => true
+  | MUsage, MUsage | MList, MList | MHelp, MHelp | MRun, MRun => true
   | _, _ => false
   end.
 Definition stream_eqb (a b : stream) : bool :=
